@@ -498,6 +498,33 @@ def run(tier):
                                for s_ in f.get_free_variables())
                     one(env, f, tot, True, ask_sat=f.get_type().is_bool_type())
     chk.cov["family_selfref"] = {"cases": len(rows) - n0}
+    # ---------------- container-size thresholds: array values with N explicit entries as MODEL values ----------
+    n0 = len(rows)
+    with S.EnvCtx() as env:
+        m = env.formula_manager
+        d = S.Directed(env, rnd, tier)
+        for sname, n, it, dflt, pairs, lit, chain, outside in d.sized_arrays():
+            a = m.Symbol("za_%s_%d" % (sname, n), ArrayType(it, INT))
+            b = m.Symbol("zb_%s_%d" % (sname, n), ArrayType(it, INT))
+            byid = sorted(pairs, key=lambda kv: id(kv[0]))
+            asg = {a: lit}
+            if n <= 17 and (sname == "Int" or tier != "quick"):
+                pick = pairs
+            elif n:
+                pick = [byid[-1], byid[0], pairs[0], pairs[-1]]
+            else:
+                pick = []
+            for k, v in pick:
+                one(env, m.Select(a, k), asg, True, ask_sat=False)
+            one(env, m.Select(a, outside[0]), asg, True, ask_sat=False)
+            if n:
+                one(env, m.And([m.Equals(m.Select(a, k), v) for k, v in pairs]), asg, True, ask_sat=True)
+                one(env, m.Equals(m.Select(a, byid[-1][0]), byid[-1][1]), asg, False, ask_sat=True)
+                one(env, m.Select(m.Store(a, byid[0][0], m.Int(7)), byid[-1][0]), asg, True, ask_sat=False)
+                one(env, m.Select(m.Store(a, outside[0], m.Int(7)), byid[-1][0]), asg, True, ask_sat=False)
+                one(env, m.Equals(a, b), {a: lit, b: chain}, True, ask_sat=True)
+                one(env, m.Equals(m.Select(a, byid[-1][0]), m.Select(b, byid[-1][0])), {a: lit, b: chain}, True, ask_sat=True)
+    chk.cov["family_sizes"] = {"cases": len(rows) - n0, "sizes": S.Directed.SIZES, "index_sorts": ["Int", "BV8/BV16", "String"]}
     # ---------------- the string hazard pool through every string operator ----------------------
     n0 = len(rows)
     with S.EnvCtx() as env:
